@@ -18,6 +18,29 @@ CLAIMED = {
         note="Trusted: Lexical.tla/Pipeline.tla transcriptions; 'any class' = Exception subclasses; RecursionError beyond nesting 100 excluded.",
         technique="TLC enumeration of LexEnum.tla (spec->code) + TLC evaluation of recorded results against Pipeline.tla (code->spec)",
     ),
+    "C02": dict(
+        category="model_checking",
+        text=("Code->spec with an independent oracle: Execute.tla transcribes the specification's execution algorithm (CoerceVariableValues, CollectFields with "
+              "@skip/@include, inline fragments and spreads with a visited set, ExecuteSelectionSet with ordered keys, CoerceArgumentValues incl. the "
+              "variable/default/missing rules, CompleteValue with non-null/list/leaf/abstract/object cases, error propagation). Seeded abstract cases "
+              "(4 000 quick / 40 000 thorough) are rendered to real schema/document/data objects and executed with execute_sync three times on shared objects; "
+              "TLC evaluates Execute on every recorded case and compares data incl. key order, the set and number of error paths and the argument map of every "
+              "resolver call; repeated and interleaved executions must be identical."),
+        design_ref="DESIGN.md 5/C02",
+        note="Trusted: Execute.tla as the reading of spec section 6; gqlmini renderers; documents are filtered by the real validate(); custom scalars/middleware out of scope.",
+        technique="TLC evaluation of recorded real executions against the transcribed specification algorithm Execute.tla",
+    ),
+    "C03": dict(
+        category="model_checking",
+        text=("Schedule exploration on the real executor with a TLA+ oracle: every resolver result, abstract type resolution, list item and async-iterator step "
+              "is independently sync or bound to a harness gate; per request every completion order of the gates the code really has pending is executed by "
+              "re-execution on a deterministic loop (random orders beyond the run budget). TLC (AsyncV.tla) checks each async response against Execute.tla "
+              "(same data, same nulled positions), against the fully synchronous execution, for well-formedness (errors end at/below a null, data null only "
+              "with a root error) and, for mutations, that the root-field index never decreases in the interleaved call/completion log."),
+        design_ref="DESIGN.md 5/C03",
+        note="One gate completes per quiescent point; error entries below an already nulled position are not compared (only nulled positions are); the id()-keyed memo defect F2 was found through C04 and is fixed.",
+        technique="exhaustive re-execution of completion orders on a deterministic event loop + TLC evaluation against Execute.tla/AsyncV.tla",
+    ),
     "C04": dict(
         category="model_checking",
         text=("Trace validation code->spec: payload sequences of real executions (8 fixed request shapes under exhaustive re-execution of every settle/pull "
